@@ -6,7 +6,7 @@ import (
 	"bytes"
 	"encoding/json"
 	"fmt"
-	"runtime/metrics"
+	"runtime"
 	"strconv"
 	"strings"
 	"testing"
@@ -28,10 +28,13 @@ import (
 
 const allocSlack = 8 << 20
 
+// heapAllocs: bytes allocated by the process so far. runtime.ReadMemStats flushes the per-P allocation caches first,
+// so the figure is exact at the instant of the call (runtime/metrics' /gc/heap/allocs:bytes lags by what the caches
+// hold - up to megabytes with many Ps - and once put a delta over the bound that a fresh process did not show).
 func heapAllocs() uint64 {
-	s := []metrics.Sample{{Name: "/gc/heap/allocs:bytes"}}
-	metrics.Read(s)
-	return s[0].Value.Uint64()
+	var m runtime.MemStats
+	runtime.ReadMemStats(&m)
+	return m.TotalAlloc
 }
 
 var hostileCL = []string{"-1", "-2147483648", "abc", "", "1e9", "0x10", "99999999999999999999", "2147483647", "268435456", "67108864", "999999999999999", "4294967296", " 5", "5 ", "+5", "00000000005"}
